@@ -208,6 +208,51 @@ def rtSample (m : Model) (τ maxR : Rat) (h : Nat) (b : Vec) : Nat × Rat :=
     let acc := rtLoop m τ maxR (rtSim m τ maxR h) h b m.A
     (acc.arg, acc.max.getD 0)
 
+/-! ## RTBSS parameterised by the two syntactic facts `tools/extract_c02.py` reads from the source
+
+  `geo`    : `upperBound` is the geometric sum Σ_{t=1..h} γ^t·maxR (repaired) instead of γ·maxR·h (as shipped)
+  `inside` : `if ( rew > max )` is inside the `if ( uBound > max )` block (repaired) instead of after it (as shipped)
+  `rtSampleC ⟨false,false⟩` is `rtSample` (theorem `rtSampleC_shipped`). -/
+
+structure RtCfg where
+  geo : Bool
+  inside : Bool
+  deriving Repr, DecidableEq
+
+/-- the repaired `upperBound` loop: `d *= discount; bound += d * maxR`, `h` times; state (bound, d) -/
+def rtGeoLoop (γ maxR : Rat) : Nat → Rat × Rat
+  | 0 => (0, 1)
+  | t+1 => ((rtGeoLoop γ maxR t).1 + (rtGeoLoop γ maxR t).2 * γ * maxR, (rtGeoLoop γ maxR t).2 * γ)
+
+def rtUpperC (cfg : RtCfg) (m : Model) (maxR : Rat) (h : Nat) : Rat :=
+  if cfg.geo then (rtGeoLoop m.γ maxR h).1 else rtUpper m maxR h
+
+def rtStepC (cfg : RtCfg) (m : Model) (τ maxR : Rat) (V : Vec → Rat) (hprev : Nat) (b : Vec) (acc : RtAcc) (a : Nat) : RtAcc :=
+  let rew0 := expReward m b a
+  let uBound := rew0 + rtUpperC cfg m maxR hprev
+  if cfg.inside then
+    if gtOpt uBound acc.max then
+      (if gtOpt (rew0 + rtFuture m τ V b a) acc.max then ⟨some (rew0 + rtFuture m τ V b a), a⟩ else acc)
+    else acc
+  else
+    let rew := if gtOpt uBound acc.max then rew0 + rtFuture m τ V b a else rew0
+    if gtOpt rew acc.max then ⟨some rew, a⟩ else acc
+
+def rtLoopC (cfg : RtCfg) (m : Model) (τ maxR : Rat) (V : Vec → Rat) (hprev : Nat) (b : Vec) : Nat → RtAcc
+  | 0 => ⟨none, 0⟩
+  | n+1 => rtStepC cfg m τ maxR V hprev b (rtLoopC cfg m τ maxR V hprev b n) n
+
+def rtSimC (cfg : RtCfg) (m : Model) (τ maxR : Rat) : Nat → Vec → Rat
+  | 0 => fun _ => 0
+  | h+1 => fun b => ((rtLoopC cfg m τ maxR (rtSimC cfg m τ maxR h) h b m.A).max).getD 0
+
+def rtSampleC (cfg : RtCfg) (m : Model) (τ maxR : Rat) (h : Nat) (b : Vec) : Nat × Rat :=
+  match h with
+  | 0 => (0, 0)
+  | h+1 =>
+    let acc := rtLoopC cfg m τ maxR (rtSimC cfg m τ maxR h) h b m.A
+    (acc.arg, acc.max.getD 0)
+
 /-! ## validity predicates evaluated by the driver -/
 
 def allLt (n : Nat) (p : Nat → Bool) : Bool := (List.range n).all p
